@@ -237,6 +237,24 @@ theorem C07_mini_write_read_reachable (v4 : Bool) (ops : List Phys.GOp) :
       Phys.miniChainRead (bs.length + 2) p' l off bs.length [] = .ok bs :=
   Phys.mini_write_read_reachable v4 ops
 
+/-- the regular level for the reachable states: a write inside the chain of a stream of at least 4096 bytes is
+read back, leaves every other such stream's bytes and every byte of the mini stream (every small stream) as
+they were — `C07_chain_write_read` / `C07_chain_write_frame` with the premises about the state discharged -/
+theorem C07_chain_write_frame_reachable (v4 : Bool) (ops : List Phys.GOp) :
+    let g0 : Phys.G := { p := Phys.create v4, L := fun _ => 0 }
+    Phys.WritesInRange g0 ops → (Phys.grun g0 ops).p.fat.size ≤ Raw.MAXREG + 1 →
+    ∀ e1 ∈ (Phys.grun g0 ops).p.starts, ∀ e2 ∈ (Phys.grun g0 ops).p.starts, e1.2 ≠ e2.2 →
+    Phys.CUTOFF ≤ (Phys.grun g0 ops).L e1.1 → e1.2 ≠ Raw.END → Phys.CUTOFF ≤ (Phys.grun g0 ops).L e2.1 → e2.2 ≠ Raw.END →
+    ∀ l1 l2 lr, Phys.IsChain (Phys.grun g0 ops).p.fat e1.2 l1 → Phys.IsChain (Phys.grun g0 ops).p.fat e2.2 l2 →
+    ((Phys.grun g0 ops).p.rootStart ≠ Raw.END → Phys.IsChain (Phys.grun g0 ops).p.fat (Phys.grun g0 ops).p.rootStart lr) →
+    ((Phys.grun g0 ops).p.rootStart = Raw.END → lr = []) →
+    ∀ (off : Nat) (bs : Phys.Bytes), off + bs.length ≤ l1.length * (Phys.grun g0 ops).p.S →
+    ∃ p', Phys.chainWrite .zero (bs.length + 2) (Phys.grun g0 ops).p l1 off bs = .ok (p', l1) ∧
+      Phys.chainRead (bs.length + 2) p' l1 off bs.length [] = .ok bs ∧
+      Phys.chainBytes p' l2 = Phys.chainBytes (Phys.grun g0 ops).p l2 ∧
+      Phys.chainBytes p' lr = Phys.chainBytes (Phys.grun g0 ops).p lr :=
+  Phys.chain_write_frame_reachable v4 ops
+
 /-- non-vacuity: a version-3 file whose mini stream is the one-sector chain [2] (eight mini sectors);
 the mini chain [5, 1, 6] of a 150-byte stream, 100 bytes written across two mini-sector boundaries
 at offset 40; the mini chain [0, 7] belongs to another stream.  The write and the read-back are
